@@ -9,6 +9,9 @@ ROOT = os.path.dirname(os.path.dirname(os.path.abspath(__file__)))
 
 NOT_APPLICABLE = {}
 
+# Properties whose check is finished and claimed (a module that merely exists is not claimed).
+READY = ["C01", "C02", "C03", "C04", "C05", "C07", "C08", "C09", "C10", "C11", "C12", "C13", "C15", "C18", "C19"]
+
 ENGINES = [
     {"name": "E1 virtual-loop explorer", "path": "vt/vloop.py vt/explore.py", "kind_free_text": "stateless exhaustive exploration of environment-event schedules of the real asyncio code on a hand-stepped virtual-time event loop with in-memory transports"},
     {"name": "E2 segmentation state graph", "path": "vt/explore.py", "kind_free_text": "explicit-state BFS over (stream offset, canonical parser state); every segmentation of a stream is a path"},
@@ -23,6 +26,8 @@ def main():
     for n in range(1, 21):
         pid = f"C{n:02d}"
         try:
+            if pid not in READY:
+                raise ModuleNotFoundError(pid)
             mod = importlib.import_module(f"vt.props.{pid.lower()}")
         except ModuleNotFoundError:
             na.append({"property_id": pid, "reason": NOT_APPLICABLE.get(pid, "check not built yet (planned in DESIGN.md §4); not claimed")})
